@@ -1,3 +1,168 @@
-import Babylon.Core.Proto
-/-! Line-protocol driver for property C04 (stub). -/
-def main : IO Unit := Babylon.Core.runLines (fun (s : Unit) _ => (s, "bad-op")) ()
+import Babylon.Core.Trace
+import Babylon.CVec.Model
+/-! Driver for property C04 (ConcurrentVector / RetireList).
+
+* default: lock-step replay.  stdin: runs `RUN <seed> bits=<b> …` / VRT trace lines / `END`;
+  stdout: `ok <n>` | `diverge <why>`.  A model step yields the labels of one shared action plus the
+  thread-local allocator / constructor events that follow it; they are queued per thread and every
+  trace line of that thread must equal the head of its queue.
+* `drv_C04 seq`: line protocol for the pure index arithmetic (E-SEQ). -/
+open Babylon.Core Babylon.CVec
+
+structure RState where
+  c : Cfg
+  s : State
+  pending : Nat → List Act
+
+def hdrNat (hdr : List String) (key : String) : Option Nat :=
+  (hdr.filterMap (fun h => if h.startsWith (key ++ "=") then (h.drop (key.length + 1)).toNat? else none)).head?
+
+def initR (hdr : List String) : RState :=
+  let bits := (hdrNat hdr "bits").getD 0
+  let rr := match hdrNat hdr "reread" with
+    | some v => v != 0
+    | none => Babylon.Gen.CVec.retireRereads
+  { c := { bits := bits, reread := rr }, s := State.init 1000000000, pending := fun _ => [] }
+
+def atTime (w : String) : Option Nat := if w.startsWith "@" then (w.drop 1).toNat? else none
+
+def stripTime (ws : List String) : List String := ws.filter (fun w => !w.startsWith "@")
+
+def parseSeg (w : String) : Option (Nat × Nat × Nat) :=
+  match w.splitOn ":" with
+  | [a, b, l] => do pure ((← a.toNat?), (← b.toNat?), (← l.toNat?))
+  | _ => none
+
+def idleQuiet (r : RState) (t : Nat) : Bool := r.s.pc t == .idle && (r.pending t).isEmpty
+
+def startCall (r : RState) (t : Nat) (f : State → State) : Except String RState :=
+  if !idleQuiet r t then .error s!"call while the model thread is at {reprStr (r.s.pc t)} with {(r.pending t).length} labels pending"
+  else if r.s.destroyed then .error "call after destruction"
+  else .ok { r with s := f r.s }
+
+def expectRet (r : RState) (t : Nat) (want : Res → Bool) (what : String) : Except String RState :=
+  if !idleQuiet r t then .error s!"implementation returned from {what} but the model thread is at {reprStr (r.s.pc t)} with {(r.pending t).length} labels pending"
+  else if want (r.s.result t) then .ok r
+  else .error s!"{what} returned differently: model result {reprStr (r.s.result t)}"
+
+def stepObs (r : RState) (o : Obs) : Except String RState :=
+  let t := o.tid
+  match Act.ofObs o with
+  | none => .error "unknown trace line"
+  | some (.ev ["call", "ensure", i]) =>
+    match i.toNat? with
+    | some i => startCall r t (fun s => callEnsure r.c s t i)
+    | none => .error "bad index"
+  | some (.ev ["call", "reserve", n]) =>
+    match n.toNat? with
+    | some n => startCall r t (fun s => callReserve r.c s t n)
+    | none => .error "bad size"
+  | some (.ev ["call", "foreach", b, e]) =>
+    match b.toNat?, e.toNat? with
+    | some b, some e => startCall r t (fun s => callRange r.c s t b e)
+    | _, _ => .error "bad range"
+  | some (.ev ["call", w, off, n]) =>
+    if w == "fill" || w == "copy" then
+      match off.toNat?, n.toNat? with
+      | some off, some n => startCall r t (fun s => callRange r.c s t off (off + n))
+      | _, _ => .error "bad range"
+    else .error "unknown call"
+  | some (.ev ["call", "snap"]) => startCall r t (fun s => callSnap s t .snap)
+  | some (.ev ["call", "get", i]) =>
+    match i.toNat? with
+    | some i => startCall r t (fun s => callSnap s t (.get i))
+    | none => .error "bad index"
+  | some (.ev ["call", "gc"]) => startCall r t (fun s => callGc s t)
+  | some (.ev ["call", "destroy"]) => startCall r t (fun s => callDestroy s t)
+  | some (.ev ["ret", "ensure", b, off]) =>
+    expectRet r t (fun x => match x with | .elem _ b' o' => some b' == b.toNat? && some o' == off.toNat? | _ => false) s!"ensure -> {b} {off}"
+  | some (.ev ["ret", "get", b, off]) =>
+    expectRet r t (fun x => match x with | .elem _ b' o' => some b' == b.toNat? && some o' == off.toNat? | _ => false) s!"operator[] -> {b} {off}"
+  | some (.ev ["ret", "snap", T]) =>
+    expectRet r t (fun x => match x with | .table T' => some T' == T.toNat? | _ => false) s!"snapshot -> table {T}"
+  | some (.ev ("ret" :: "foreach" :: segs)) =>
+    expectRet r t (fun x => match x with | .segs l => segs.mapM parseSeg == some l | _ => false) s!"for_each -> {segs}"
+  | some (.ev ["ret", w]) =>
+    if w == "fill" || w == "copy" then expectRet r t (fun x => match x with | .segs _ => true | _ => false) w
+    else expectRet r t (fun x => x == .unit) w
+  | some (.ev ["woke", v]) =>
+    match atTime v with
+    | some v => if v < r.s.now then .error s!"virtual clock went backwards: {v} < {r.s.now}" else .ok { r with s := { r.s with now := v } }
+    | none => .error "bad time"
+  | some (.ev ["sleep", _]) | some (.ev ["stall", _]) => .ok r
+  | some (.ev ["use", T, i, b, off, _]) =>
+    match T.toNat?, i.toNat?, b.toNat?, off.toNat? with
+    | some T, some i, some b, some off =>
+      if r.s.snap t ≠ some T then .error s!"snapshot of thread {t} is table {reprStr (r.s.snap t)} in the model"
+      else if (r.s.freedT T).isSome then .error s!"implementation dereferences table {T}, freed in the model"
+      else if elemAt r.c (r.s.tbl T) i = some (b, off) then .ok r
+      else .error s!"snapshot[{i}] is {b}:{off}, model says {reprStr (elemAt r.c (r.s.tbl T) i)}"
+    | _, _, _, _ => .error "bad use line"
+  | some (.ev ["usefreed", T, _, _]) =>
+    match T.toNat? with
+    | some T => if (r.s.freedT T).isSome then .ok r else .error s!"harness says table {T} is freed, the model does not"
+    | none => .error "bad usefreed line"
+  | some (.ev ("ORACLE" :: _)) | some (.ev ("stats" :: _)) => .ok r
+  | some (.spawn _) | some (.join _) | some .exit => .ok r
+  | some a0 =>
+    let a := match a0 with
+      | .ev ws => Act.ev (stripTime ws)
+      | x => x
+    match r.pending t with
+    | l :: rest =>
+      if l = a then .ok { r with pending := upd r.pending t rest }
+      else .error s!"model expects {reprStr l} (queued), implementation did {reprStr a}"
+    | [] =>
+      let spurious := match a with
+        | .cas _ _ true _ _ e _ ok obs => !ok && e == obs
+        | _ => false
+      let clock := match a with
+        | .ev ["clock", v] => v.toNat?.getD 0
+        | _ => 0
+      match stepThread r.c r.s t { spurious := spurious, clock := clock } with
+      | none => .error s!"implementation performs {reprStr a} but the model thread has no step (pc {reprStr (r.s.pc t)})"
+      | some (_, []) => .error "model step without label"
+      | some (s', l :: rest) =>
+        if l = a then .ok { r with s := s', pending := upd r.pending t rest }
+        else .error s!"model expects {reprStr l}, implementation did {reprStr a}"
+
+def finalR (r : RState) : Except String Unit :=
+  if !r.s.destroyed then .error "trace ended before the vector was destroyed"
+  else match (List.range 64).find? (fun t => !idleQuiet r t) with
+    | some t => .error s!"trace ended while model thread {t} is at {reprStr (r.s.pc t)} with {(r.pending t).length} labels pending"
+    | none => .ok ()
+
+/-- E-SEQ line protocol for the index arithmetic -/
+def seqStep (_ : Unit) (line : String) : Unit × String :=
+  let out := match words line with
+    | ["reset"] => "ok"
+    | ["meta", h] =>
+      match h.toNat? with
+      | some h => let b := setBits h; s!"{b} {2 ^ b} {2 ^ b - 1}"
+      | none => "bad"
+    | ["idx", bits, i] =>
+      match bits.toNat?, i.toNat? with
+      | some bits, some i => let c : Cfg := { bits := bits }; s!"{blockIndex c i} {blockOffset c i}"
+      | _, _ => "bad"
+    | ["grow", bits, "ensure", i] =>
+      match bits.toNat?, i.toNat? with
+      | some bits, some i => s!"{needEnsure { bits := bits } i}"
+      | _, _ => "bad"
+    | ["grow", bits, "reserve", n] =>
+      match bits.toNat?, n.toNat? with
+      | some bits, some n => s!"{needReserve { bits := bits } n}"
+      | _, _ => "bad"
+    | ["segs", bits, b, e] =>
+      match bits.toNat?, b.toNat?, e.toNat? with
+      | some bits, some b, some e =>
+        let c : Cfg := { bits := bits }
+        let n := needReserve c e
+        let l := forEachSegs c (List.range n) b e
+        s!"{n}" ++ String.join (l.map (fun (x : Nat × Nat × Nat) => s!" {x.1}:{x.2.1}:{x.2.2}"))
+      | _, _, _ => "bad"
+    | _ => "bad-op"
+  ((), out)
+
+def main (args : List String) : IO Unit := do
+  if args == ["seq"] then runLines seqStep ()
+  else replayLoop (← IO.getStdin) initR stepObs finalR
